@@ -335,7 +335,7 @@ func genTempl(t *rapid.T) TemplCase {
 	}
 	n := pbt.Range(t, 1, 5)
 	for i := 0; i < n; i++ {
-		p := TProc{Name: fmt.Sprintf("svc%d", i), Replicas: pbt.Pick(t, []int{0, 1, 2, 2, 3, 4, 10, 11}), Command: "run " + pbt.Pick(t, tmplPieces)}
+		p := TProc{Name: fmt.Sprintf("svc%d", i), Replicas: pbt.Pick(t, []int{0, 1, 2, 2, 3, 4, 9, 10, 11, 99, 100}), Command: "run " + pbt.Pick(t, tmplPieces)}
 		for _, l := range []string{"L1", "L2", "L3"} {
 			if pbt.Pct(t, 40) {
 				if p.Vars == nil {
